@@ -4,8 +4,10 @@ import (
 	"fmt"
 	"go/ast"
 	"go/constant"
+	"go/parser"
 	"go/token"
 	"go/types"
+	"golang.org/x/tools/go/ast/astutil"
 	"regexp"
 	"sort"
 	"strconv"
@@ -226,6 +228,8 @@ func (e *Env) RUniqueNames() {
 				ok = true
 			} else if okK && firstResultOf(info, c, fd, findObj, c.ObjOf(kid)) {
 				ok = true // inserted by the caller, from the first result of the findAlias call
+			} else if okK && e.closureParamFrom(info, c, fd, findObj, c.ObjOf(kid)) {
+				ok = true // inserted by a local closure that is handed the first result of findAlias (or "")
 			} else if lit, isLit := schema.StringLit(ix.Index); isLit && lit == "" {
 				// the empty name of dot/blank imports: never a candidate of findAlias
 			} else {
@@ -307,6 +311,66 @@ func (e *Env) RAliasFlow() {
 							return true
 						})
 						pairOK = s0 && s1
+						if !pairOK {
+							// … or handed, together with the path, to a local closure that stores them:
+							// set(p, n, a) with set := func(P0, P1, P2) { r.packageNames[P0] = P1; aliases[P0] = P2; … }
+							ast.Inspect(fd.Body, func(m ast.Node) bool {
+								cl, ok := m.(*ast.CallExpr)
+								if !ok || len(cl.Args) < 3 {
+									return true
+								}
+								fid, ok := cl.Fun.(*ast.Ident)
+								if !ok {
+									return true
+								}
+								lit, _ := funcLitNamed(info, fd, fid.Name)
+								if lit == nil {
+									return true
+								}
+								var ps []string
+								for _, f := range lit.Type.Params.List {
+									for _, nm := range f.Names {
+										ps = append(ps, nm.Name)
+									}
+								}
+								if len(ps) != len(cl.Args) {
+									return true
+								}
+								idx := func(o types.Object) int {
+									for k, a := range cl.Args {
+										if id, ok := ast.Unparen(a).(*ast.Ident); ok && c.ObjOf(id) == o {
+											return k
+										}
+									}
+									return -1
+								}
+								pi := -1
+								for k, a := range cl.Args {
+									if c.ExprStr(a) == a0 {
+										pi = k
+									}
+								}
+								ni, ai := idx(o0), idx(o1)
+								if pi < 0 || ni < 0 || ai < 0 {
+									return true
+								}
+								n0, n1 := false, false
+								for _, st := range lit.Body.List {
+									if as, ok := st.(*ast.AssignStmt); ok && len(as.Lhs) == 1 && len(as.Rhs) == 1 {
+										if types.ExprString(as.Lhs[0]) == "r.packageNames["+ps[pi]+"]" && types.ExprString(as.Rhs[0]) == ps[ni] {
+											n0 = true
+										}
+										if types.ExprString(as.Lhs[0]) == "aliases["+ps[pi]+"]" && types.ExprString(as.Rhs[0]) == ps[ai] {
+											n1 = true
+										}
+									}
+								}
+								if n0 && n1 {
+									pairOK = true
+								}
+								return true
+							})
+						}
 					}
 				}
 			}
@@ -463,9 +527,31 @@ func (e *Env) RRestoreIdent() {
 	}
 	isNPath := func(x ast.Expr) bool { p, ok := c.Path(x, nObj); return ok && p == "Path" }
 	isRPath := func(x ast.Expr) bool { p, ok := c.Path(x, recv); return ok && p == "Path" }
+	// the function and, when it ends in `return r.build(…)`, the method that builds the selector
+	roots := []ast.Node{fd.Body}
+	paramArg := map[types.Object]types.Object{} // parameter of that method → the variable it is handed
+	if tail, callee := c.TailCall(fd); callee != nil {
+		roots = append(roots, callee.Body)
+		k := 0
+		for _, f := range callee.Type.Params.List {
+			for _, nm := range f.Names {
+				if k < len(tail.Args) {
+					if id, ok := ast.Unparen(tail.Args[k]).(*ast.Ident); ok {
+						paramArg[info.Defs[nm]] = info.Uses[id]
+					}
+				}
+				k++
+			}
+		}
+	}
+	inspectAll := func(f func(ast.Node) bool) {
+		for _, r := range roots {
+			ast.Inspect(r, f)
+		}
+	}
 	// variable passed to NewIdent for X
 	var nameObj types.Object
-	ast.Inspect(fd.Body, func(n ast.Node) bool {
+	inspectAll(func(n ast.Node) bool {
 		call, ok := n.(*ast.CallExpr)
 		if !ok || !schema.IsMethod(c.Callee(call), load.PkgDecorator, "FileRestorer", "restoreNode") || len(call.Args) != 5 {
 			return true
@@ -474,13 +560,16 @@ func (e *Env) RRestoreIdent() {
 			if inner, ok := call.Args[0].(*ast.CallExpr); ok && len(inner.Args) == 1 {
 				if id, ok := inner.Args[0].(*ast.Ident); ok {
 					nameObj = info.Uses[id]
+					if a, isParam := paramArg[nameObj]; isParam && a != nil {
+						nameObj = a
+					}
 				}
 			}
 		}
 		return true
 	})
 	lookup, localCmp, dot, avoidCheck := false, false, false, false
-	ast.Inspect(fd.Body, func(n ast.Node) bool {
+	inspectAll(func(n ast.Node) bool {
 		switch x := n.(type) {
 		case *ast.AssignStmt:
 			for i, l := range x.Lhs {
@@ -1086,10 +1175,122 @@ func (e *Env) checkReturns(rule string, c *schema.Ctx, fd *ast.FuncDecl, label s
 	e.checkReturnsZ(rule, c, fd, label, `""`, wants, errCond)
 }
 
+// predicateHook: calls of small same-package predicates (one bool result, every return a literal
+// true or false, panics allowed) print as the condition under which they return true, written
+// over the arguments: `!needsResolving(a, b)` is `!(!avoid[a+"."+b] && …)`.
+func (e *Env) predicateHook(c *schema.Ctx, self *ast.FuncDecl) func(*ast.CallExpr) ast.Expr {
+	cache := map[*ast.FuncDecl]string{}
+	busy := false
+	return func(call *ast.CallExpr) ast.Expr {
+		if busy {
+			return nil
+		}
+		fn := c.Callee(call)
+		if fn == nil || fn.Pkg() != c.Pkg.Types {
+			return nil
+		}
+		sig, ok := fn.Type().(*types.Signature)
+		if !ok || sig.Results().Len() != 1 || sig.Variadic() {
+			return nil
+		}
+		if b, ok := sig.Results().At(0).Type().Underlying().(*types.Basic); !ok || b.Kind() != types.Bool {
+			return nil
+		}
+		var d *ast.FuncDecl
+		for _, x := range load.AllFuncDecls(c.Pkg) {
+			if c.Info.Defs[x.Name] == types.Object(fn) && x.Body != nil && x != self {
+				d = x
+			}
+		}
+		if d == nil || len(d.Body.List) > 6 || d.Type.Params == nil {
+			return nil
+		}
+		var params []string
+		for _, f := range d.Type.Params.List {
+			for _, nm := range f.Names {
+				params = append(params, nm.Name)
+			}
+		}
+		if len(params) != len(call.Args) {
+			return nil
+		}
+		cond, done := cache[d]
+		if !done {
+			busy = true
+			// the helper's own conditions are computed without the caller's substitutions
+			savedPos, savedSubst := c.PosSubst, c.Subst
+			c.PosSubst, c.Subst = nil, nil
+			rets, okR := returnsOf(c, d)
+			c.PosSubst, c.Subst = savedPos, savedSubst
+			busy = false
+			cond = ""
+			if okR {
+				var trues []string
+				good := true
+				for _, r := range rets {
+					if len(r.results) != 1 {
+						good = false
+						break
+					}
+					switch r.results[0] {
+					case "true":
+						cd := r.cond
+						if cd == "" {
+							cd = "true"
+						}
+						trues = append(trues, "("+cd+")")
+					case "false":
+					default:
+						good = false
+					}
+				}
+				if good && len(trues) > 0 {
+					cond = strings.Join(trues, " || ")
+				} else if good {
+					cond = "false"
+				}
+			}
+			cache[d] = cond
+		}
+		if cond == "" {
+			return nil
+		}
+		ex, err := parser.ParseExpr(cond)
+		if err != nil {
+			return nil
+		}
+		args := map[string]ast.Expr{}
+		for i, p := range params {
+			args[p] = call.Args[i]
+		}
+		out := astutil.Apply(ex, func(cur *astutil.Cursor) bool {
+			if id, ok := cur.Node().(*ast.Ident); ok {
+				if _, isSel := cur.Parent().(*ast.SelectorExpr); isSel && cur.Name() == "Sel" {
+					return true
+				}
+				if a, isParam := args[id.Name]; isParam {
+					cp := schema.DeepCopy(a)
+					switch cp.(type) {
+					case *ast.BinaryExpr, *ast.UnaryExpr:
+						cp = &ast.ParenExpr{X: cp}
+					}
+					cur.Replace(cp)
+				}
+			}
+			return true
+		}, nil)
+		return out.(ast.Expr)
+	}
+}
+
 func (e *Env) checkReturnsZ(rule string, c *schema.Ctx, fd *ast.FuncDecl, label, zero string, wants []wantReturn, errCond string) {
 	if fd == nil || fd.Body == nil {
 		e.Run.Violation(rule, label+" exists", "", "missing")
 		return
+	}
+	if c.CallHook == nil {
+		c.CallHook = e.predicateHook(c, fd)
+		defer func() { c.CallHook = nil }()
 	}
 	if errCond != "" {
 		wants = append(wants, wantReturn{what: "an error is returned exactly when specified", result: zero, err: "!nil", cond: errCond})
@@ -1970,7 +2171,14 @@ func (e *Env) RQuietRearrange() {
 			}
 			ast.Inspect(rs.Body, func(b ast.Node) bool {
 				if a2, ok := b.(*ast.AssignStmt); ok && len(a2.Lhs) == 1 && len(a2.Rhs) == 1 {
+					target := false
 					if se, ok := a2.Lhs[0].(*ast.SelectorExpr); ok && se.Sel.Name == "Specs" {
+						target = true
+					}
+					if lid, ok := a2.Lhs[0].(*ast.Ident); ok && specsAlias(info, fd, lid) {
+						target = true
+					}
+					if target {
 						if cl, ok := a2.Rhs[0].(*ast.CallExpr); ok && types.ExprString(cl.Fun) == "append" {
 							found = true
 						}
@@ -2197,9 +2405,12 @@ func (e *Env) RAddsEveryMissing() {
 		if !ok || len(as.Lhs) != 1 || len(as.Rhs) != 1 {
 			return true
 		}
-		se, ok := as.Lhs[0].(*ast.SelectorExpr)
-		if !ok || se.Sel.Name != "Specs" {
-			return true
+		if se, ok := as.Lhs[0].(*ast.SelectorExpr); !ok || se.Sel.Name != "Specs" {
+			// … or a local that stands for a block's Specs and is written back afterwards
+			lid, isID := as.Lhs[0].(*ast.Ident)
+			if !isID || !specsAlias(info, fd, lid) {
+				return true
+			}
 		}
 		cl, ok := as.Rhs[0].(*ast.CallExpr)
 		if !ok || types.ExprString(cl.Fun) != "append" || len(cl.Args) != 2 {
@@ -2606,4 +2817,94 @@ func (e *Env) RNameSource() {
 		return true
 	})
 	e.Run.Floor("R-NAMESRC", "findAlias call sites", n, 1)
+}
+
+// specsAlias: the local named l in fd stands for a block's Specs: it is defined as `l := B.Specs`,
+// only ever extended with `l = append(l, …)`, and written back with `B.Specs = l`.
+func specsAlias(info *types.Info, fd *ast.FuncDecl, l *ast.Ident) bool {
+	o := info.Uses[l]
+	if o == nil {
+		o = info.Defs[l]
+	}
+	if o == nil {
+		return false
+	}
+	def, back, other := false, false, false
+	ast.Inspect(fd.Body, func(n ast.Node) bool {
+		as, ok := n.(*ast.AssignStmt)
+		if !ok || len(as.Lhs) != 1 || len(as.Rhs) != 1 {
+			return true
+		}
+		if id, ok := as.Lhs[0].(*ast.Ident); ok && (info.Uses[id] == o || info.Defs[id] == o) {
+			if se, ok := ast.Unparen(as.Rhs[0]).(*ast.SelectorExpr); ok && se.Sel.Name == "Specs" && as.Tok == token.DEFINE {
+				def = true
+			} else if cl, ok := as.Rhs[0].(*ast.CallExpr); ok && types.ExprString(cl.Fun) == "append" && len(cl.Args) >= 1 && types.ExprString(cl.Args[0]) == id.Name {
+			} else {
+				other = true
+			}
+		}
+		if se, ok := as.Lhs[0].(*ast.SelectorExpr); ok && se.Sel.Name == "Specs" {
+			if rid, ok := ast.Unparen(as.Rhs[0]).(*ast.Ident); ok && info.Uses[rid] == o {
+				back = true
+			}
+		}
+		return true
+	})
+	return def && back && !other
+}
+
+// closureParamFrom: o is a parameter of a local closure of fd, and at every call of that closure
+// the corresponding argument is the first result of a call of fnObj (findAlias) or the empty
+// string literal (the name of dot, blank and cgo imports, which never is a candidate).
+func (e *Env) closureParamFrom(info *types.Info, c *schema.Ctx, fd *ast.FuncDecl, fnObj, o types.Object) bool {
+	var lit *ast.FuncLit
+	var bound types.Object
+	pidx := -1
+	ast.Inspect(fd.Body, func(n ast.Node) bool {
+		as, ok := n.(*ast.AssignStmt)
+		if !ok || len(as.Lhs) != 1 || len(as.Rhs) != 1 {
+			return true
+		}
+		fl, ok := as.Rhs[0].(*ast.FuncLit)
+		if !ok {
+			return true
+		}
+		k := 0
+		for _, f := range fl.Type.Params.List {
+			for _, nm := range f.Names {
+				if info.Defs[nm] == o {
+					lit, pidx = fl, k
+					if id, ok := as.Lhs[0].(*ast.Ident); ok {
+						bound = c.ObjOf(id)
+					}
+				}
+				k++
+			}
+		}
+		return true
+	})
+	if lit == nil || bound == nil {
+		return false
+	}
+	calls, good := 0, true
+	ast.Inspect(fd.Body, func(n ast.Node) bool {
+		cl, ok := n.(*ast.CallExpr)
+		if !ok {
+			return true
+		}
+		if id, ok := cl.Fun.(*ast.Ident); !ok || c.ObjOf(id) != bound || pidx >= len(cl.Args) {
+			return true
+		}
+		calls++
+		a := ast.Unparen(cl.Args[pidx])
+		if lit, isLit := schema.StringLit(a); isLit && lit == "" {
+			return true
+		}
+		if id, ok := a.(*ast.Ident); ok && firstResultOf(info, c, fd, fnObj, c.ObjOf(id)) {
+			return true
+		}
+		good = false
+		return true
+	})
+	return calls > 0 && good
 }
